@@ -106,7 +106,10 @@ class NodeRec:
             run.node.pump_writes()
             for p_ in openp:
                 run.node.take_sent(p_)
-        run.deliver_block(self.rng.choice(openp), block, irt=irt, label=label)
+        peer_ = self.rng.choice(openp)
+        if getattr(self, "advertise_p", 0) and irt == 0 and self.rng.random() < self.advertise_p:
+            run.advertise(peer_, block)          # the peer lists the hash first, the node asks for it, then the block is pushed
+        run.deliver_block(peer_, block, irt=irt, label=label)
         after = run.node.chain().block_by_hash
         if getattr(self, "assume_valid", False) and block.hash() not in before and isinstance(label, dict) and label.get("mut", "x") == "":
             return "ok"             # every offered block is valid by construction: later blocks are built on it whatever the node did with it
